@@ -22,10 +22,38 @@ import (
 	"github.com/AliyunContainerService/terway/zz_verif/vt"
 )
 
+// c02GuardOff names the finding whose deterministic witness is currently running.
+var c02GuardOff string
+
+type c02WitnessStop struct{}
+
+// fail reports a violation: through the vt context in a property run, into the witness
+// result in a witness run.
+func (w *c02World) fail(f string, a ...any) {
+	if w.witness != nil {
+		*w.witness = fmt.Sprintf(f, a...)
+		panic(c02WitnessStop{})
+	}
+	w.c.Fatalf(f, a...)
+}
+
 // c08Known: vt.Known, plus finding ids the lead has not yet entered into
 // known_findings.json but whose guard must already be active (VERIF_PENDING_KNOWN, set
 // through the test's env in bin/props.d/C02.py and C08.py until the lead lists them).
 func c08Known(id string) bool {
+	if id == c02GuardOff {
+		return false // the witness of this finding is running: let the violation surface
+	}
+	// VERIF_KNOWN_OVERRIDE (sensitivity experiments on a repaired scratch tree only): the
+	// exact set of active guards, e.g. "none"
+	if o := os.Getenv("VERIF_KNOWN_OVERRIDE"); o != "" {
+		for _, p := range strings.Split(o, ",") {
+			if strings.TrimSpace(p) == id {
+				return true
+			}
+		}
+		return false
+	}
 	if vt.Known(id) {
 		return true
 	}
@@ -129,6 +157,7 @@ func (w *c02World) onCall(cl *cloudctl.Cloud, c *cloudctl.Call) {
 			have = len(k.v6)
 		}
 		if have+cnt > lim {
+			kind = "assign:" + c.ENI + ":" + fam
 			bad("%d more %s addresses requested for %s which holds %d by everything the controller was told; declared per-interface limit is %d", cnt, fam, c.ENI, have, lim)
 		}
 		if have+cnt == lim {
@@ -149,13 +178,20 @@ func (w *c02World) onCall(cl *cloudctl.Cloud, c *cloudctl.Call) {
 			mode = aliyunClient.ENITrafficModeRDMA
 		}
 		counted, same := 0, 0
+		perKind := map[string]int{}
 		for _, k := range w.k {
 			if !k.counted {
 				continue
 			}
 			counted++
+			perKind[k.typ+"/"+k.mode]++
 			if k.typ == c.Type && (k.mode == mode || k.mode == "") {
 				same++
+			}
+		}
+		for _, f := range w.spec.Flavor {
+			if perKind[string(f.NetworkInterfaceType)+"/"+string(f.NetworkInterfaceTrafficMode)] > f.Count {
+				kind = "surplus" // some kind already exceeds its share (listed finding C08-negative-slot-count)
 			}
 		}
 		if counted+1 > n.Adapters-1 {
@@ -165,7 +201,9 @@ func (w *c02World) onCall(cl *cloudctl.Cloud, c *cloudctl.Call) {
 			bad("new interface requested while the node has %d by everything the controller was told; the flavor admits %d in total", counted, w.flavorTotal())
 		}
 		if same+1 > w.flavor(c.Type, mode) {
-			kind = "perkind"
+			if kind != "surplus" {
+				kind = "perkind"
+			}
 			bad("new %s/%s interface requested while the node has %d of that kind; the flavor admits %d", c.Type, mode, same, w.flavor(c.Type, mode))
 		}
 		if counted+1 == min(n.Adapters-1, w.flavorTotal()) || same+1 == w.flavor(c.Type, mode) {
@@ -317,7 +355,7 @@ func (w *c02World) step(tag string) c02StepResult {
 		w.c.Label(why)
 	}
 	enough := w.c08EnoughIdle(prev, pods)
-	lost := w.c08KnowledgeLost(prev)
+	lost := w.c08KnowledgeLost(prev, pods)
 	emptyMode := false
 	for _, e := range prev.Status.NetworkInterfaces {
 		if e.NetworkInterfaceTrafficMode == "" {
@@ -344,6 +382,22 @@ func (w *c02World) step(tag string) c02StepResult {
 	for id := range cur.Status.NetworkInterfaces {
 		w.everRecorded[id] = true
 	}
+	for i := range res.calls {
+		c := &res.calls[i]
+		if c.Kind != cloudctl.KDescribe || c.Err != "" || len(c.IDs) > 0 {
+			continue
+		}
+		for _, t := range c.Told {
+			if e := prev.Status.NetworkInterfaces[t.ID]; e != nil {
+				if len(e.IPv4) == 0 && len(t.V4) > 0 {
+					w.nilMapHit[t.ID+"/4"] = true
+				}
+				if len(e.IPv6) == 0 && len(t.V6) > 0 {
+					w.nilMapHit[t.ID+"/6"] = true
+				}
+			}
+		}
+	}
 	if w.c != nil {
 		w.c.Trace("[%s] reconcile: %d calls (%d mutating), %d status writes, %d write errors, err=%v", tag, len(res.calls), res.mutations, w.writes, w.writeErrs, err)
 		for i := range res.calls {
@@ -367,6 +421,21 @@ func (w *c02World) step(tag string) c02StepResult {
 			// it did not resynchronise before asking for more
 			w.c.Label("known:C08-lost-write-no-resync")
 			w.c.Trace("    (known C08-lost-write-no-resync: %s; %s)", lost, m.msg)
+		case strings.HasPrefix(m.kind, "assign:") && c08NilFamily(prev, m.kind) && c08Known("C08-sync-merge-nil-map"):
+			// the record holds no address map of that family for the interface, so the
+			// addresses the full sync was told about were dropped by mergeIPMap
+			w.c.Label("known:C08-sync-merge-nil-map")
+			w.c.Trace("    (known C08-sync-merge-nil-map: %s)", m.msg)
+		case strings.HasPrefix(m.kind, "assign:") && c08EmptyKey(prev, m.kind) && c08Known("C08-eflo-partial-key-collision"):
+			// EFLO: half-created addresses are recorded under the empty address key, a second
+			// one replaces nothing and is forgotten
+			w.c.Label("known:C08-eflo-partial-key-collision")
+			w.c.Trace("    (known C08-eflo-partial-key-collision: %s)", m.msg)
+		case m.kind == "surplus" && c08Known("C08-negative-slot-count"):
+			// more interfaces of one kind than the flavor admits make getEniOptions hand
+			// the negative remainder to the next kind
+			w.c.Label("known:C08-negative-slot-count")
+			w.c.Trace("    (known C08-negative-slot-count: %s)", m.msg)
 		case m.kind == "perkind" && emptyMode && c08Known("C08-rollback-record-lacks-mode"):
 			w.c.Label("known:C08-rollback-record-lacks-mode")
 			w.c.Trace("    (known C08-rollback-record-lacks-mode: %s)", m.msg)
@@ -375,7 +444,7 @@ func (w *c02World) step(tag string) c02StepResult {
 		}
 	}
 	if len(hard) > 0 && w.s.Mode == "C08" {
-		w.c.Fatalf("C08 quota monitor: %s", strings.Join(hard, "; "))
+		w.fail("C08 quota monitor: %s", strings.Join(hard, "; "))
 	}
 	if len(hard) > 0 {
 		w.c.Label("c08-monitor-hit-in-c02-mode")
@@ -400,7 +469,7 @@ func (w *c02World) step(tag string) c02StepResult {
 	}
 	if msg != "" {
 		if w.s.Mode == "C02" {
-			w.c.Fatalf("C02 violated after reconcile [%s]: %s\nbefore: %s\nafter:  %s", tag, msg, c02RenderRecord(prev.Status.NetworkInterfaces), c02RenderRecord(cur.Status.NetworkInterfaces))
+			w.fail("C02 violated after reconcile [%s]: %s\nbefore: %s\nafter:  %s", tag, msg, c02RenderRecord(prev.Status.NetworkInterfaces), c02RenderRecord(cur.Status.NetworkInterfaces))
 		}
 		w.c.Label("c02-violation-in-c08-mode")
 	}
@@ -448,12 +517,50 @@ func (w *c02World) forceFullSync() {
 	w.must(w.base.Status().Update(w.ctx, n))
 }
 
+// c08NilFamily: the record the pass started from has no address of that family on the
+// interface named in the monitor kind ("assign:<eni>:<family>").
+func c08NilFamily(n *networkv1beta1.Node, kind string) bool {
+	parts := strings.Split(kind, ":")
+	if len(parts) != 3 {
+		return false
+	}
+	e := n.Status.NetworkInterfaces[parts[1]]
+	if e == nil {
+		return false
+	}
+	if parts[2] == "IPv6" {
+		return len(e.IPv6) == 0
+	}
+	return len(e.IPv4) == 0
+}
+
+// c08EmptyKey: the record the pass started from holds an address entry under the empty key
+// on the interface named in the monitor kind.
+func c08EmptyKey(n *networkv1beta1.Node, kind string) bool {
+	parts := strings.Split(kind, ":")
+	if len(parts) != 3 {
+		return false
+	}
+	e := n.Status.NetworkInterfaces[parts[1]]
+	if e == nil {
+		return false
+	}
+	_, ok := e.IPv4[""]
+	return ok
+}
+
 // c08KnowledgeLost: the controller has been told about an interface or address that the
 // persisted record it is about to start from does not contain, and no full sync is
 // pending. Returns a description ("" if nothing is lost).
-func (w *c02World) c08KnowledgeLost(n *networkv1beta1.Node) string {
-	if w.needSync() || n.Status.NextSyncOpenAPITime.Time.Before(time.Now()) || (len(n.Status.NetworkInterfaces) == 0 && len(w.live) > 0) {
-		return ""
+func (w *c02World) c08KnowledgeLost(n *networkv1beta1.Node, pods map[string]*c02PodView) string {
+	served := 0
+	for _, p := range pods {
+		if p.eligible {
+			served++
+		}
+	}
+	if w.needSync() || n.Status.NextSyncOpenAPITime.Time.Before(time.Now()) || (len(n.Status.NetworkInterfaces) == 0 && served > 0) {
+		return "" // this pass starts with a full sync
 	}
 	w.mu.Lock()
 	defer w.mu.Unlock()
@@ -472,7 +579,17 @@ func (w *c02World) c08KnowledgeLost(n *networkv1beta1.Node) string {
 			return "interface " + id + " told but not in the persisted record"
 		}
 		for a := range k.v4 {
-			if e.IPv4[a] == nil && !strings.HasPrefix(a, "name:") {
+			if strings.HasPrefix(a, "name:") {
+				found := false
+				for _, ip := range e.IPv4 {
+					found = found || "name:"+ip.IPName == a
+				}
+				if !found {
+					return "address " + a + " on " + id + " told but not in the persisted record"
+				}
+				continue
+			}
+			if e.IPv4[a] == nil {
 				return "address " + a + " on " + id + " told but not in the persisted record"
 			}
 		}
@@ -660,6 +777,23 @@ func (w *c02World) apply(i int, o c02Op) {
 	case "cloudfault":
 		w.cloud.Arm(o.Faults...)
 		w.c.Trace("[%s] cloud faults armed: %+v", tag, o.Faults)
+	case "episode":
+		w.cloud.Arm(o.Faults...)
+		if o.API != "" {
+			w.apiFaults = append(w.apiFaults, o.API)
+			w.c.Label("apifault:" + o.API)
+		}
+		w.c.Trace("[%s] faults armed: %+v api=%q", tag, o.Faults, o.API)
+		for j := 0; j < o.B; j++ {
+			slot := (o.A + j) % len(w.s.Slots)
+			if w.live[slot] == nil {
+				p := w.createPod(slot, "", "")
+				w.c.Trace("[%s] pod %s created uid=%s", tag, p.name, p.uid)
+			}
+		}
+		for j := 0; j < max(o.C, 1); j++ {
+			w.step(tag)
+		}
 	case "drift":
 		w.drift(tag, o)
 	}
@@ -816,6 +950,10 @@ func (w *c02World) c08CheckRollback(f *c08Final) string {
 		switch {
 		case r == nil:
 			return fmt.Sprintf("interface %s is attached to the instance in the cloud but missing from the record", id)
+		case r.Status == aliyunClient.ENIStatusDeleting:
+			// recorded for deletion: neither its attachment nor its addresses matter any more
+			w.c.Label("rollback:recorded-for-deletion")
+			continue
 		case e == nil:
 			return fmt.Sprintf("interface %s is in the record (status %s) but not attached to the instance in the cloud", id, r.Status)
 		}
@@ -826,6 +964,10 @@ func (w *c02World) c08CheckRollback(f *c08Final) string {
 			cs := map[string]bool{}
 			for _, a := range pair.cloud {
 				cs[a] = true
+				if pair.rec[a] == nil && (len(pair.rec) == 0 || w.nilMapHit[fmt.Sprintf("%s/%d", id, 4+2*fam)]) && c08Known("C08-sync-merge-nil-map") {
+					w.c.Label("known:C08-sync-merge-nil-map")
+					continue
+				}
 				if pair.rec[a] == nil {
 					return fmt.Sprintf("interface %s: address %s (family %d) is assigned in the cloud but missing from the record", id, a, 4+2*fam)
 				}
@@ -885,6 +1027,22 @@ func c08Idle(n *networkv1beta1.Node, v4 bool) (idle, pinned int) {
 	return
 }
 
+// c08DualImbalance: listed finding C08-dual-stack-imbalance applies - the node is dual
+// stack and some interface in use holds different numbers of idle IPv4 and IPv6 addresses
+// (the controller counts demand, idle and surplus per family, pods need a pair on one
+// interface).
+func (w *c02World) c08DualImbalance(f *c08Final) bool {
+	if !(w.s.Node.V4 && w.s.Node.V6) || !c08Known("C08-dual-stack-imbalance") {
+		return false
+	}
+	for _, e := range f.node.Status.NetworkInterfaces {
+		if e.Status == aliyunClient.ENIStatusInUse && IdlesWithAvailable(e.IPv4) != IdlesWithAvailable(e.IPv6) {
+			return true
+		}
+	}
+	return false
+}
+
 // c08WhollyIdlePrimaries counts idle primaries of secondary/standard interfaces in use on
 // which nothing is bound (interfaces the controller could release as a whole).
 func c08WhollyIdlePrimaries(n *networkv1beta1.Node, v4 bool) int {
@@ -922,16 +1080,25 @@ func (w *c02World) c08Room(f *c08Final, rdma, growOnly bool) (bool, string) {
 		cnt[e.Type+"/"+e.TrafficMode]++
 	}
 	std, hp := aliyunClient.ENITrafficModeStandard, aliyunClient.ENITrafficModeRDMA
+	// every kind of the flavor keeps its share: slots still owed to the trunk / rdma kind are
+	// not available to plain secondary interfaces
+	trunkOwed, rdmaOwed := 0, 0
+	if n.Trunk {
+		trunkOwed = max(w.flavor(aliyunClient.ENITypeTrunk, std)-cnt[aliyunClient.ENITypeTrunk+"/"+std], 0)
+	}
+	if n.ERDMA {
+		rdmaOwed = max(w.flavor(aliyunClient.ENITypeSecondary, hp)-cnt[aliyunClient.ENITypeSecondary+"/"+hp], 0)
+	}
 	if free > 0 {
 		if rdma {
-			if w.flavor(aliyunClient.ENITypeSecondary, hp)-cnt[aliyunClient.ENITypeSecondary+"/"+hp] > 0 {
+			if rdmaOwed > 0 && free-trunkOwed > 0 {
 				return true, "free rdma interface slot"
 			}
 		} else {
-			if w.flavor(aliyunClient.ENITypeSecondary, std)-cnt[aliyunClient.ENITypeSecondary+"/"+std] > 0 {
+			if w.flavor(aliyunClient.ENITypeSecondary, std)-cnt[aliyunClient.ENITypeSecondary+"/"+std] > 0 && free-trunkOwed-rdmaOwed > 0 {
 				return true, "free secondary interface slot"
 			}
-			if n.Trunk && w.flavor(aliyunClient.ENITypeTrunk, std)-cnt[aliyunClient.ENITypeTrunk+"/"+std] > 0 {
+			if trunkOwed > 0 {
 				return true, "free trunk interface slot"
 			}
 		}
@@ -1041,6 +1208,10 @@ func (w *c02World) c08CheckConverged(f *c08Final) string {
 			continue
 		}
 		if room, why := w.c08Room(f, p.erdma, false); room {
+			if w.c08DualImbalance(f) {
+				w.c.Label("known:C08-dual-stack-imbalance")
+				continue
+			}
 			return fmt.Sprintf("fixed point reached but pod %s (rdma=%v) has no address although capacity is spare (%s)", id, p.erdma, why)
 		}
 		w.c.Label("conv:capacity-exhausted")
@@ -1053,6 +1224,10 @@ func (w *c02World) c08CheckConverged(f *c08Final) string {
 	}
 	if idle < n.Min {
 		if room, why := w.c08Room(f, false, true); room {
+			if w.c08DualImbalance(f) {
+				w.c.Label("known:C08-dual-stack-imbalance")
+				return ""
+			}
 			return fmt.Sprintf("fixed point reached with %d idle addresses, below the pool minimum %d, although capacity is spare (%s)", idle, n.Min, why)
 		}
 		w.c.Label("conv:min-capacity-exhausted")
@@ -1070,8 +1245,11 @@ func (w *c02World) c08CheckConverged(f *c08Final) string {
 
 // ------------------------------------------------------------------ run
 
-func c02RunLoop(c *vt.Ctx, s c02Scenario) {
+func c02RunLoop(c *vt.Ctx, s c02Scenario) { c02RunLoopW(c, s, nil) }
+
+func c02RunLoopW(c *vt.Ctx, s c02Scenario, witness *string) {
 	w := c02NewWorld(c, s)
+	w.witness = witness
 	c.Trace("node %+v", s.Node)
 	c.Trace("flavor %+v", w.spec.Flavor)
 	c.Trace("initial record: %s", c02RenderRecord(w.readNode().Status.NetworkInterfaces))
@@ -1122,10 +1300,10 @@ func c02RunLoop(c *vt.Ctx, s c02Scenario) {
 
 		orphans := w.c08Orphans(f)
 		if len(orphans) > 0 {
-			if c08Known("C08-double-fault-orphan") && w.c08DoubleFaultOrphan(orphans) {
-				c.Label("known:C08-double-fault-orphan")
+			if cls := w.c08OrphanClass(orphans); cls != "" {
+				c.Label("known:" + cls)
 			} else {
-				c.Fatalf("C08 rollback: interface(s) %v were created by a controller call, are not attached to the instance and are not recorded anywhere (leaked)\nrecord: %s", orphans, c02RenderRecord(f.node.Status.NetworkInterfaces))
+				w.fail("C08 rollback: interface(s) %v were created by a controller call, are not attached to the instance and are not recorded anywhere (leaked)\nrecord: %s", orphans, c02RenderRecord(f.node.Status.NetworkInterfaces))
 			}
 		}
 		if !fixed {
@@ -1135,10 +1313,13 @@ func c02RunLoop(c *vt.Ctx, s c02Scenario) {
 				// controller cannot see use up the quota): there is no spare capacity to
 				// converge into, the precondition of the convergence clause does not hold
 				c.Label("conv:declared-limit-not-deliverable(skipped)")
+			case !w.c08Ample():
+				// without spare vSwitch capacity the convergence clause does not apply
+				c.Label("conv:vswitch-not-ample(skipped)")
 			case w.c08OscillationClass(f) != "":
 				c.Label("known:" + w.c08OscillationClass(f))
 			default:
-				c.Fatalf("C08 convergence: no fixed point within %d healthy reconciles after the history (each still mutated the cloud or wrote the record); rounds that requested addresses although enough were idle: %d\nrecord: %s", rounds, w.overDemand, c02RenderRecord(f.node.Status.NetworkInterfaces))
+				w.fail("C08 convergence: no fixed point within %d healthy reconciles after the history (each still mutated the cloud or wrote the record); rounds that requested addresses although enough were idle: %d\nrecord: %s", rounds, w.overDemand, c02RenderRecord(f.node.Status.NetworkInterfaces))
 			}
 			if w.nt {
 				c.NonTrivial()
@@ -1150,10 +1331,10 @@ func c02RunLoop(c *vt.Ctx, s c02Scenario) {
 			c.Inconclusive("full sync still pending at the fixed point")
 		}
 		if msg := w.c08CheckRollback(f); msg != "" {
-			c.Fatalf("C08 rollback: after the forced full sync and %d healthy reconciles record and cloud disagree: %s\nrecord: %s", rounds, msg, c02RenderRecord(f.node.Status.NetworkInterfaces))
+			w.fail("C08 rollback: after the forced full sync and %d healthy reconciles record and cloud disagree: %s\nrecord: %s", rounds, msg, c02RenderRecord(f.node.Status.NetworkInterfaces))
 		}
 		if msg := w.c08CheckConverged(f); msg != "" {
-			c.Fatalf("C08 convergence: %s\nrecord: %s", msg, c02RenderRecord(f.node.Status.NetworkInterfaces))
+			w.fail("C08 convergence: %s\nrecord: %s", msg, c02RenderRecord(f.node.Status.NetworkInterfaces))
 		}
 	} else {
 		if !fixed {
@@ -1185,11 +1366,12 @@ func (w *c02World) c08OscillationClass(f *c08Final) string {
 	if len(w.settleTail) < 10 {
 		return ""
 	}
+	onlyAddresses := true // the steady state only assigns / unassigns addresses
 	for _, round := range w.settleTail {
 		for i := range round {
 			switch round[i].Kind {
 			case cloudctl.KCreate, cloudctl.KAttach, cloudctl.KDetach, cloudctl.KDelete:
-				return ""
+				onlyAddresses = false
 			}
 		}
 	}
@@ -1214,13 +1396,27 @@ func (w *c02World) c08OscillationClass(f *c08Final) string {
 			rdmaIdle = true
 		}
 	}
+	perKind := map[string]int{}
+	for _, e := range f.node.Status.NetworkInterfaces {
+		perKind[string(e.NetworkInterfaceType)+"/"+string(e.NetworkInterfaceTrafficMode)]++
+	}
+	surplus := false
+	for _, fl := range w.spec.Flavor {
+		if perKind[string(fl.NetworkInterfaceType)+"/"+string(fl.NetworkInterfaceTrafficMode)] > fl.Count {
+			surplus = true
+		}
+	}
 	switch {
-	case w.overDemand > 0 && c08Known("C08-greedy-demand-oscillation"):
+	case surplus && c08Known("C08-negative-slot-count"):
+		return "C08-negative-slot-count"
+	case len(w.nilMapHit) > 0 && c08Known("C08-sync-merge-nil-map"):
+		return "C08-sync-merge-nil-map"
+	case w.overDemand > 0 && onlyAddresses && c08Known("C08-greedy-demand-oscillation"):
 		return "C08-greedy-demand-oscillation"
 	case n.ERDMA && rdmaIdle && c08Known("C08-rdma-idle-oscillation"):
 		return "C08-rdma-idle-oscillation"
-	case imbalance && c08Known("C08-dual-stack-trim-oscillation"):
-		return "C08-dual-stack-trim-oscillation"
+	case imbalance && c08Known("C08-dual-stack-imbalance"):
+		return "C08-dual-stack-imbalance"
 	}
 	return ""
 }
@@ -1235,4 +1431,24 @@ func (w *c02World) c08DoubleFaultOrphan(ids []string) bool {
 		}
 	}
 	return true
+}
+
+// c08OrphanClass returns the id of the listed finding every leaked interface belongs to:
+// C08-double-fault-orphan (never persisted: rollback delete and record write both failed)
+// or C08-sync-drops-detached-eni (persisted as Deleting after a failed rollback delete,
+// then dropped from the record by a full sync because the by-id query is also filtered
+// by instance id and a detached interface has none).
+func (w *c02World) c08OrphanClass(ids []string) string {
+	if c08Known("C08-double-fault-orphan") && w.c08DoubleFaultOrphan(ids) {
+		return "C08-double-fault-orphan"
+	}
+	if !c08Known("C08-sync-drops-detached-eni") {
+		return ""
+	}
+	for _, id := range ids {
+		if !(w.deleteFailed[id] && w.everRecorded[id]) && !(c08Known("C08-double-fault-orphan") && w.c08DoubleFaultOrphan([]string{id})) {
+			return ""
+		}
+	}
+	return "C08-sync-drops-detached-eni"
 }
